@@ -158,6 +158,7 @@ class ScriptedIn:
         self.q = ""
         self.consumed = 0
         self.oserrors = 0          # raise OSError on the next k reads
+        self.fail_plan = []        # per read call: True = raise OSError (consumed front first)
         self.hook = None           # called once at the start of the next read
         self.reads = 0
 
@@ -174,6 +175,8 @@ class ScriptedIn:
             h()
         if self.oserrors > 0:
             self.oserrors -= 1
+            raise OSError(5, "scripted read failure")
+        if self.fail_plan and self.fail_plan.pop(0):
             raise OSError(5, "scripted read failure")
         r, self.q = self.q[:n], self.q[n:]
         self.consumed += len(r)
